@@ -107,7 +107,7 @@ Y_MALFORMS = ["y_unsorted", "y_decreasing_range", "y_empty", "y_frame", "y_frame
               "y_ndarray", "y_list"]
 X_MALFORMS = ["X_shifted", "X_shorter", "X_longer", "X_unsorted", "X_ndarray"]
 FH_MALFORMS = ["fh_dup", "fh_dup_array", "fh_dup_index", "fh_empty", "fh_empty_index",
-               "fh_empty_object",
+               "fh_empty_object", "fh_periods_as_steps", "fh_dates_as_steps",
                "fh_frac_list", "fh_frac_array", "fh_frac_scalar", "fh_str", "fh_dict", "fh_nested"]
 INT_MALFORMS = ["zero", "negative", "fractional", "string", "bool", "list", "np_fractional", "np_negative"]
 
@@ -154,6 +154,11 @@ def malform_X(kind, X, rng):
 
 
 def malform_fh(kind, steps):
+    # wrongly typed: time stamps / periods where steps ahead are expected
+    if kind == "fh_periods_as_steps":
+        return pd.period_range("2000-01", periods=len(steps), freq="M")
+    if kind == "fh_dates_as_steps":
+        return pd.date_range("2000-01-01", periods=len(steps), freq="D")
     if kind == "fh_dup":
         return list(steps) + [steps[-1]]
     if kind == "fh_dup_array":
@@ -432,6 +437,40 @@ def _register_fh_cells():
             run = lambda mk: evaluate(C.build(ctx.forecaster(["naive"])), mk(), ctx.y_train)  # noqa
         return dict(control=lambda: run(good), faulty=lambda: run(bad), sig={"splitter": t, "via": via})
     cell("split/fh_absolute", "malformed_fh", "entry_splitter")(split_absolute)
+
+    def tuner_fit(ctx):
+        from sktime.forecasting.model_selection import ForecastingGridSearchCV, SlidingWindowSplitter
+        how = ctx.rng.choice(["fh_dup", "fh_frac_list", "fh_missing_required"])
+        if how == "fh_missing_required":
+            base_spec = ctx.forecaster(["reduce_multi", "reduce_dir"])
+            grid = {"window_length": [3, 4]}
+            bad, good = None, list(ctx.steps)
+        else:
+            base_spec = ctx.forecaster(["naive"])
+            grid = {"strategy": ["last", "mean"]}
+            bad, good = malform_fh(how, ctx.steps), list(ctx.steps)
+        mk = lambda: ForecastingGridSearchCV(C.build(base_spec), SlidingWindowSplitter(  # noqa
+            fh=list(ctx.steps), window_length=14, step_length=4), grid)
+        holder = {}
+
+        def faulty():
+            holder["f"] = mk()
+            return holder["f"].fit(ctx.y_train, fh=bad)
+        # (the search itself runs on its own valid horizons; the rejection comes from the re-fit)
+        return dict(control=lambda: mk().fit(ctx.y_train, fh=good), faulty=faulty,
+                    fresh=lambda: holder.get("f"), sig={"how": how})
+    cell("tuner_fit/fh_rejected_at_refit", "malformed_fh", "entry_tuning")(tuner_fit)
+
+    def missing_update_predict(ctx):
+        # fitted without a horizon, none ever seen, and none in the call (no splitter either)
+        naive3 = {"kind": "naive", "strategy": ctx.rng.choice(["last", "mean"]), "sp": 1, "window_length": 3}
+        spec = ctx.rng.choice([naive3, {"kind": "reduce", "strategy": "recursive", "window_length": 3,
+                                        "regressor": "stub"}])
+        f = C.build(spec).fit(ctx.y_train)
+        return dict(control=lambda: C.build(spec).fit(ctx.y_train, fh=[1, 2]).update_predict(ctx.y_new),
+                    faulty=lambda: f.update_predict(ctx.y_new), after=lambda: f.predict(list(ctx.steps)),
+                    sig={"forecaster": _k(spec)})
+    cell("update_predict/fh_missing", "missing_or_different_fh", "entry_forecaster")(missing_update_predict)
 
     def missing_predict(ctx):
         spec = ctx.forecaster(["naive", "naive_mean", "trend", "reduce_rec", "ensemble", "ttf", "mux",
